@@ -22,10 +22,15 @@ type C05Params struct {
 	Trigger  string   // "shutdown" or "disable" (module management)
 	DepItem  bool     // chain only: D runs a worker too
 	ItemsErr bool     // items return an error instead of nil
+	Holder   bool     // another thread takes and releases the module's (exported) read lock twice while the stop runs
 }
 
 func (p C05Params) Name() string {
-	return fmt.Sprintf("c05/%s/%s/items=%s/pts=%d/stop=%s/dep=%v/err=%v", p.Graph, p.Trigger, strings.Join(p.Items, "+"), p.ItemPts, p.StopFn, p.DepItem, p.ItemsErr)
+	n := fmt.Sprintf("c05/%s/%s/items=%s/pts=%d/stop=%s/dep=%v/err=%v", p.Graph, p.Trigger, strings.Join(p.Items, "+"), p.ItemPts, p.StopFn, p.DepItem, p.ItemsErr)
+	if p.Holder {
+		n += "/holder"
+	}
+	return n
 }
 
 type c05item struct {
@@ -115,8 +120,15 @@ func (s *c05state) launch(m *Module, it *c05item) {
 		go func() {
 			done := m.SignalMicroTask(0)
 			_ = body(m.Ctx)
+			// done is called from two threads at once and once more afterwards: it takes effect once
+			both := make(chan struct{})
+			go func() {
+				done()
+				close(both)
+			}()
 			done()
-			done() // additional calls do nothing
+			<-both
+			done()
 		}()
 	case "prep-worker":
 		// launched from the prep routine (before the module was started): see mPrep
@@ -331,6 +343,18 @@ func VerifC05(p C05Params) *vsched.Scenario {
 				body := s.itemBody(it)
 				s.m.NewTask("tl", func(ctx context.Context, _ *Task) error { return body(ctx) }).Queue()
 			}
+		}
+		if p.Holder {
+			// somebody reads the module under its lock (the RWMutex is an exported, embedded field) while the stop runs
+			mod := s.m
+			go func() {
+				for i := 0; i < 2; i++ {
+					vsched.Point("holder-lock")
+					mod.RLock()
+					vsched.Point("holding-module-read-lock")
+					mod.RUnlock()
+				}
+			}()
 		}
 		var err error
 		if p.Trigger == "shutdown" {
